@@ -162,7 +162,12 @@ func mergeBuild(c any, o any, path tree.Path) (any, error) {
 		}
 		return nil
 	}
-	return mergeMappings(toBuild(c), toBuild(o), path)
+	right := toBuild(c)
+	left := toBuild(o)
+	if right == nil && len(left) > 0 {
+		return nil, fmt.Errorf("cannot override %s: build must be a string or a mapping", path)
+	}
+	return mergeMappings(right, left, path)
 }
 
 func mergeDependsOn(c any, o any, path tree.Path) (any, error) {
